@@ -667,6 +667,18 @@ class Interp:
                     return [(Const({"int": int, "str": str, "bool": bool, "bytes": bytes}[f.id](args[0].v)), st)]
                 except Exception as ex:
                     return [(Exc(type(ex).__name__, e), st)]
+        if isinstance(f, ast.Attribute) and isinstance(recv, Const) and isinstance(recv.v, list) and f.attr in ("append", "extend") \
+                and len(args) == 1 and not kw and isinstance(f.value, (ast.Name, ast.Attribute)):
+            # list building: the receiver variable gets a NEW constant (states of other paths keep theirs)
+            key = f.value.id if isinstance(f.value, ast.Name) else self.attr_key(f.value)
+            if key is not None and key in st.env:
+                s2 = st.copy()
+                a0 = args[0]
+                if isinstance(a0, Const) and (f.attr == "append" or isinstance(a0.v, (list, tuple))):
+                    s2.env[key] = Const(recv.v + ([a0.v] if f.attr == "append" else list(a0.v)))
+                else:
+                    s2.env[key] = Unknown("list")
+                return [(Const(None), s2)]
         if isinstance(f, ast.Attribute) and isinstance(recv, Const):
             if recv.v is None:
                 return [(Exc("AttributeError", e), st)]
